@@ -303,6 +303,7 @@ func c18run(w *report.W) {
 		sets = append(sets, []member{{id: "a", good: true}, {id: "b", good: true}, {id: "", good: true}},
 			[]member{{id: "b", good: false}, {id: "a", good: true}, {id: "a", good: false}})
 	}
+	prevBytes := []byte(`{"keys":[]}`)
 	for si, set := range sets {
 		var descr []string
 		jw := jwk.NewSet()
@@ -321,13 +322,36 @@ func c18run(w *report.W) {
 			descr = append(descr, fmt.Sprintf("{id:%q valid:%v}", set[i].id, set[i].good))
 		}
 		b, _ := json.Marshal(jw)
-		path := filepath.Join(dir, fmt.Sprintf("set%d.json", si))
+		// A case is a history on one path: an optional earlier LoadKey (with
+		// any requested id, or made while the path still held the previous
+		// key set) followed by the load that is judged. Every history gets
+		// its own path so that histories are independent.
+		type hist struct{ prev, req string }
+		var hists []hist
 		for _, req := range []string{"", "a", "b", "c"} {
+			hists = append(hists, hist{"-", req})
+			for _, prev := range []string{"", "a", "b", "c", "other-content"} {
+				hists = append(hists, hist{prev, req})
+			}
+		}
+		for hi, h := range hists {
+			req := h.req
 			cs := fmt.Sprintf("LoadKey set=[%s] requested=%q", strings.Join(descr, " "), req)
+			if h.prev != "-" {
+				cs += fmt.Sprintf(" after-load=%q", h.prev)
+			}
 			if !w.Take(cs) {
 				continue
 			}
+			path := filepath.Join(dir, fmt.Sprintf("set%d_h%d.json", si, hi))
+			if h.prev == "other-content" {
+				os.WriteFile(path, prevBytes, 0o600)
+				report.Catch(func() { jwkutil.LoadKey(path, req) })
+			}
 			os.WriteFile(path, b, 0o600)
+			if h.prev != "-" && h.prev != "other-content" {
+				report.Catch(func() { jwkutil.LoadKey(path, h.prev) })
+			}
 			w.P.Evaluations++
 			w.P.Nontrivial++
 			var key jwk.Key
@@ -388,7 +412,9 @@ func c18run(w *report.W) {
 				// with duplicate ids of mixed validity the statement does not say which one is meant
 				w.Violate(report.Violation{Kind: "loadkey", Case: cs, Detail: "unexpected error: " + lerr.Error(), Size: len(set)})
 			}
+			os.Remove(path)
 		}
+		prevBytes = b
 	}
 	// missing / malformed files
 	for _, c := range []struct{ name, content string }{{"missing", ""}, {"garbage", "not json"}, {"emptyobj", "{}"}} {
@@ -418,7 +444,7 @@ func init() {
 		Rule: "finite tables fully enumerated: 12 key forms (RSA-2048, EC P-256/384/521, Ed25519 private+public, two oct sizes) x every algorithm name the JOSE " +
 			"library registers (signature, key-encryption, content-encryption) plus none/unknown/empty/case and padding variants/missing, set programmatically and through " +
 			"JSON parsing; generated pairs (2 per approved algorithm) validate and the 6x6 sign/verify matrix x 3 payloads accepts exactly the diagonal; key-set files: " +
-			"every list of <=3 keys over ids {a,b,none} x valid/invalid algorithm x requested id in {\"\",a,b,c}. Non-trivial = rows the rule accepts, " +
+			"every list of <=3 keys over ids {a,b,none} x valid/invalid algorithm x requested id in {\"\",a,b,c} x the history on that path (no earlier load, an earlier load with each requested id, an earlier load while the path held another key set). Non-trivial = rows the rule accepts, " +
 			"sign/verify pairs and key-set cases.",
 		Assumptions: []string{
 			"jwx key generation/signing is a black box that verifies exactly what it signed",
